@@ -43,7 +43,7 @@ import ast
 
 from hpstatic.effects import writes
 from hpstatic.interp import Interp, Frame
-from hpstatic.loader import AnalysisError
+from hpstatic.loader import AnalysisError, norm_src
 from hpstatic.terms import (sym, intern, show, subterms, calls_in, NONE, num, kw,
                             TRUE, FALSE)
 from . import c07, c15
@@ -91,6 +91,8 @@ def run(check, prog):
     saved(check, prog)
     payload(check, prog)
     minimiser_internals(check, prog)
+    limit_sides(check, prog)
+    flat_index_roundtrip(check, prog)
     # bounds are inclusive on both sides of the hand-off: the optimiser's limits
     # table and the prior's own support predicate (rule shared with C14)
     from . import c14
@@ -1381,6 +1383,383 @@ def payload(check, prog):
 
 
 # ----------------------------------------------------------------------
+def flat_index_roundtrip(check, prog):
+    """L13: a result fitted on a pixel subset is saved with its stacked (x, y, z)
+    pixel index taken apart -- netCDF has no MultiIndex -- and put together again
+    on load.  Writer and reader must agree on the key, on the stand-in dimension
+    and on the order of the three axes, and the reader must look each pixel's
+    coordinate up in the axis *of the same name*."""
+    RQ = 'holopy.inference.result.FitResult.'
+    # the order in which flat() stacks the axes
+    flatfd = prog.func('holopy.core.metadata.flat')
+    order = None
+    for n in ast.walk(flatfd):
+        if isinstance(n, ast.Call) and isinstance(n.func, ast.Attribute) and \
+                n.func.attr == 'stack':
+            for k in n.keywords:
+                if k.arg == 'flat' and isinstance(k.value, (ast.Tuple, ast.List)):
+                    order = [e.value for e in k.value.elts if isinstance(e, ast.Constant)]
+    if not order or len(order) != 3:
+        check.error('metadata.flat: stacking order not found')
+        return
+    # ---- writer
+    q = RQ + '_serialize_as_dataset'
+    fd = prog.func(q)
+    loc = prog.loc(q, fd)
+
+    def decide_w(t):
+        if t[0] == 'cmp' and t[1] == 'in' and t[2] == ('const', 'flat'):
+            return True
+        return None
+    it = Interp(prog, max_depth=0, decide=decide_w)
+    it.analyze(q)
+    st = [e for e in it.effects if e['kind'] == 'setitem' and e['key'][0] == 'const'
+          and isinstance(e['key'][1], str) and 'flat' in e['key'][1]]
+    okw = len(st) == 1
+    wkey = st[0]['key'][1] if okw else None
+    detail = ''
+    if okw:
+        v = st[0]['value']
+        # every element of the stacked index, as a list of its three coordinates
+        okw = v[0] == 'comp' and v[1] == 'list' and len(v[3]) == 1 and not v[3][0][2]
+        if okw:
+            src = v[3][0][1]
+            el = v[3][0][0]
+            okw = v[2] in (intern(('call', 'list', (el,), ())), el) and \
+                src[0] == 'attr' and src[2] == 'values' and src[1][0] == 'attr' and \
+                src[1][2] == 'flat'
+        detail = 'stores %s' % show(v)[:160]
+    check.require(okw, 'L13-flat-index-round-trip', 'writer: pixel index taken apart',
+                  'every entry of the stacked index is stored as its coordinate '
+                  'triple, under one key', loc, fail_detail=detail)
+    ren = [c for c in it.calls if c['name'] == '.rename' and len(c['args']) == 2 and
+           c['args'][1][0] == 'dict']
+    standin = None
+    if len(ren) == 1:
+        for k, v in ren[0]['args'][1][1]:
+            if k == ('const', 'flat') and v[0] == 'const':
+                standin = v[1]
+    check.require(standin is not None, 'L13-flat-index-round-trip',
+                  'writer: stand-in dimension',
+                  'the stacked dimension is renamed to a plain one', loc)
+    # ---- reader
+    q = RQ + '_unserialize'
+    fd = prog.func(q)
+    loc = prog.loc(q, fd)
+    rkeys = set()
+    for n in ast.walk(fd):
+        if isinstance(n, ast.Compare) and isinstance(n.left, ast.Constant) and \
+                isinstance(n.left.value, str) and 'flat' in n.left.value and \
+                isinstance(n.ops[0], ast.In):
+            rkeys.add(n.left.value)
+    check.require(rkeys == {wkey}, 'L13-flat-index-round-trip', 'key agreement',
+                  'the reader looks for the key the writer stores (%r)' % wkey, loc,
+                  fail_detail='reader tests %s' % sorted(rkeys))
+
+    def decide_r(t):
+        if t[0] == 'cmp' and t[1] == 'in' and t[2][0] == 'const' and \
+                isinstance(t[2][1], str) and 'flat' in t[2][1]:
+            return True
+        return None
+    it = Interp(prog, max_depth=0, decide=decide_r)
+    res = it.analyze(q)
+    mi = [c for c in it.calls if c['name'].endswith('MultiIndex')]
+    ok = len(mi) == 1 and len(mi[0]['args']) >= 2
+    detail = 'no single MultiIndex construction'
+    if ok:
+        c = mi[0]
+        levels, codes = c['args'][0], c['args'][1]
+        names = dict(c['kwargs']).get('names')
+        ok = levels[0] == 'list' and codes[0] == 'list' and names is not None and \
+            names[0] == 'list' and len(levels[1]) == len(codes[1]) == len(names[1]) == 3
+        detail = 'levels %s, names %s' % (show(levels)[:100], show(names)[:40] if names
+                                          else None)
+        if ok:
+            nm = [x[1] if x[0] == 'const' else None for x in names[1]]
+            ok = nm == order
+            detail = 'index names %s, stacking order of flat() %s' % (nm, order)
+        if ok:
+            for k, (lv, cd, name) in enumerate(zip(levels[1], codes[1], nm)):
+                # the level is the original axis of that name
+                good = lv[0] == 'idx' and lv[2] == ('const', name) and \
+                    lv[1][0] == 'attr' and lv[1][2] == 'original_dims'
+                # its codes: position of the k-th stored coordinate in that level
+                if good:
+                    good = cd[0] == 'comp' and len(cd[3]) == 1 and not cd[3][0][2]
+                if good:
+                    el, src = cd[3][0][0], cd[3][0][1]
+                    body = cd[2]
+                    good = body == intern(('call', ('attr', lv, 'index'), (el,), ())) \
+                        and src[0] == 'idx' and src[2] == num(k) and \
+                        src[1][0] == 'attr' and src[1][2] == 'T' and any(
+                            x[0] == 'idx' and x[2] == ('const', wkey)
+                            for x in subterms(src[1]))
+                if not good:
+                    ok = False
+                    detail = 'axis %r: level %s, codes %s' % (
+                        name, show(lv)[:60], show(cd)[:120])
+                    break
+    check.require(ok, 'L13-flat-index-round-trip', 'reader: pixel index rebuilt',
+                  'levels are the original x, y, z axes in the order flat() stacks '
+                  'them; the k-th stored coordinate of each pixel is looked up in the '
+                  'k-th axis', loc, fail_detail=detail)
+    rets = res.ret
+    da = rets[1][0] if rets is not None and rets[0] in ('list', 'tuple') and rets[1] \
+        else None
+    ok = da is not None and da[0] == 'call' and da[1] == 'xarray.DataArray'
+    detail = ''
+    if ok:
+        co = kw(da, 'coords')
+        dm = kw(da, 'dims')
+        mit = None
+        t = co
+        while t is not None and t[0] == 'upd' and t[2] == 'item':
+            if t[3] == ('const', 'flat'):
+                mit = t[4]
+            t = t[1]
+        ok = mit is not None and mit[0] == 'call' and mit[1].endswith('MultiIndex') and \
+            dm is not None and dm[0] == 'bin' and dm[1] == '+' and \
+            dm[3] == ('list', (('const', 'flat'),)) and \
+            any(x[0] == 'mut' and x[2] == 'remove' and x[3] == (('const', standin),)
+                for x in subterms(dm[2])) and \
+            len(da[2]) >= 1 and da[2][0][0] == 'attr' and da[2][0][2] == 'values'
+        detail = 'rebuilt as %s' % show(da)[:200]
+    check.require(ok, 'L13-flat-index-round-trip', 'reader: data re-indexed',
+                  'the values are re-labelled along `flat` by the rebuilt index, the '
+                  'stand-in dimension %r dropped, the other coordinates kept' % standin,
+                  loc, fail_detail=detail)
+
+
+def limit_sides(check, prog):
+    """L12: "every parameter stays within its prior's bounds" rests on mpfit's
+    handling of the two limits, written twice -- once for the lower and once for
+    the upper side.  Each name gets a side from where it is read (`limited[:, k]`,
+    `limits[:, k]`; k = 0 lower, 1 upper; derived names inherit it); then
+      a. no statement mixes the sides (except "any limit at all", joined by `|`);
+      b. a comparison against a bound faces outwards: below the lower, above the
+         upper bound;
+      c. at a pegged parameter the gradient test and the step clip face inwards:
+         lower `sum > 0`, clip to [0, ...]; upper `sum < 0`, clip to [..., 0];
+      d. a value written back onto a bound comes from the bound of the side the
+         index set was computed for."""
+    modname = 'holopy.inference.third_party.nmpfit'
+    if modname not in prog.modules:
+        check.error('module %s not found' % modname)
+        return
+    mod = prog.modules[modname]
+    tree = ast.parse(mod.src)
+    fn = None
+    for c in tree.body:
+        if isinstance(c, ast.ClassDef) and c.name == 'mpfit':
+            for m in c.body:
+                if isinstance(m, ast.FunctionDef) and m.name == '__init__':
+                    fn = m
+    if fn is None:
+        check.error('mpfit.__init__ not found')
+        return
+    rel = mod.relpath
+
+    def loc_(n):
+        return '%s:%d' % (rel, n.lineno)
+    assigns = {}
+    for n in ast.walk(fn):
+        if isinstance(n, ast.Assign) and len(n.targets) == 1 and \
+                isinstance(n.targets[0], ast.Name):
+            assigns.setdefault(n.targets[0].id, []).append(n)
+    side, kind = {}, {}
+    for name, ns in assigns.items():
+        ks = set()
+        for n in ns:
+            for x in ast.walk(n.value):
+                if isinstance(x, ast.Subscript) and isinstance(x.value, ast.Name) and \
+                        x.value.id in ('limited', 'limits') and \
+                        isinstance(x.slice, ast.Tuple) and len(x.slice.elts) == 2 and \
+                        isinstance(x.slice.elts[1], ast.Constant) and \
+                        x.slice.elts[1].value in (0, 1):
+                    ks.add(('LU'[x.slice.elts[1].value], x.value.id))
+        if len(ks) == 1:
+            (sd, kd), = ks
+            side[name] = sd
+            kind[name] = 'bound' if kd == 'limits' else 'flag'
+    check.floor('limit names read from parinfo', len(side), 4)
+    changed = True
+    while changed:
+        changed = False
+        for name, ns in assigns.items():
+            if name in side:
+                continue
+            ss = [set(side[x.id] for x in ast.walk(n.value)
+                      if isinstance(x, ast.Name) and x.id in side) for n in ns]
+            if all(len(s_) == 1 for s_ in ss) and len(set.union(*ss)) == 1:
+                side[name] = next(iter(ss[0]))
+                kind[name] = 'derived'
+                changed = True
+    WORD = {'L': 'lower', 'U': 'upper'}
+
+    def sides_in(e):
+        return set(side[x.id] for x in ast.walk(e)
+                   if isinstance(x, ast.Name) and x.id in side)
+    nstmt = 0
+    # a. one side per statement
+    for n in ast.walk(fn):
+        if isinstance(n, (ast.Assign, ast.AugAssign, ast.Expr)):
+            e = n
+        elif isinstance(n, (ast.If, ast.While)):
+            e = n.test
+        else:
+            continue
+        ss = sides_in(e)
+        if not ss:
+            continue
+        nstmt += 1
+        if len(ss) == 1:
+            continue
+        v = n.value if isinstance(n, (ast.Assign, ast.Expr)) else e
+        # "is any limit set": the sides joined by | only
+        def joined_by_or(x):
+            if isinstance(x, ast.BinOp) and isinstance(x.op, ast.BitOr):
+                return joined_by_or(x.left) and joined_by_or(x.right)
+            if isinstance(x, ast.BoolOp) and isinstance(x.op, ast.Or):
+                return all(joined_by_or(y) for y in x.values)
+            if isinstance(x, ast.Call) and len(x.args) == 1 and not x.keywords:
+                return joined_by_or(x.args[0])
+            return len(sides_in(x)) <= 1
+        if joined_by_or(v):
+            continue
+        if isinstance(n, ast.Assign) and isinstance(n.value, ast.Name):
+            continue        # flags aliased where no limit is set at all
+        check.bad('L12-limit-sides', 'mpfit.__init__ statement at `%s`' %
+                  norm_src(n if e is n else e)[:60],
+                  'mixes the lower and the upper limit: %s' %
+                  ast.unparse(n if e is n else e)[:120], loc_(n))
+    check.floor('statements of mpfit.__init__ that handle a limit', nstmt, 12)
+    # b. comparisons against a bound face outwards
+    ncmp = 0
+    for n in ast.walk(fn):
+        if not (isinstance(n, ast.Compare) and len(n.ops) == 1):
+            continue
+        l, r = n.left, n.comparators[0]
+
+        def bound_side(x):
+            b = set(side[y.id] for y in ast.walk(x) if isinstance(y, ast.Name)
+                    and kind.get(y.id) == 'bound')
+            return next(iter(b)) if len(b) == 1 else None
+        bl, br = bound_side(l), bound_side(r)
+        if (bl is None) == (br is None):
+            continue
+        op = n.ops[0]
+        if isinstance(op, (ast.Eq, ast.NotEq)):
+            continue
+        ncmp += 1
+        less = isinstance(op, (ast.Lt, ast.LtE))
+        sd = br if br else bl
+        # value below bound:  value < bound  or  bound > value
+        value_below = less if br else not less
+        ok = value_below if sd == 'L' else not value_below
+        check.require(ok, 'L12-limit-sides', 'mpfit.__init__ comparison `%s`' %
+                      norm_src(n)[:60],
+                      'a trial value is tested for lying %s the %s bound' % (
+                          'below' if sd == 'L' else 'above', WORD[sd]), loc_(n),
+                      fail_detail='%s tests the %s bound from the inside' % (
+                          ast.unparse(n)[:80], WORD[sd]))
+    check.floor('comparisons against a bound', ncmp, 4)
+    # c. pegged parameters: inward-facing gradient test and clip
+    npeg = 0
+    for n in ast.walk(fn):
+        if not isinstance(n, ast.If):
+            continue
+        ss = sides_in(n.test)
+        if len(ss) != 1 or not all(kind.get(x.id) == 'derived'
+                                   for x in ast.walk(n.test)
+                                   if isinstance(x, ast.Name) and x.id in side):
+            continue
+        sd = next(iter(ss))
+        for st in n.body:
+            for x in ast.walk(st):
+                if isinstance(x, ast.Compare) and len(x.ops) == 1 and \
+                        isinstance(x.left, ast.Name) and \
+                        isinstance(x.comparators[0], ast.Constant) and \
+                        x.comparators[0].value == 0 and \
+                        isinstance(x.ops[0], (ast.Gt, ast.Lt)) and \
+                        not sides_in(x):
+                    npeg += 1
+                    want_gt = sd == 'L'
+                    check.require(isinstance(x.ops[0], ast.Gt) == want_gt,
+                                  'L12-limit-sides',
+                                  'mpfit.__init__ pegged-%s gradient test' % WORD[sd],
+                                  'the column of a parameter pegged at its %s bound is '
+                                  'dropped when the misfit would fall by moving '
+                                  'outwards (%s %s 0)' % (
+                                      WORD[sd], x.left.id, '>' if want_gt else '<'),
+                                  loc_(x), fail_detail=ast.unparse(x))
+                if isinstance(x, ast.Call) and ast.unparse(x.func).endswith('clip') \
+                        and len(x.args) == 3:
+                    npeg += 1
+                    lo, hi = x.args[1], x.args[2]
+
+                    def zero(a):
+                        return isinstance(a, ast.Constant) and a.value == 0
+                    ok = (zero(lo) and not zero(hi)) if sd == 'L' else \
+                        (zero(hi) and not zero(lo))
+                    check.require(ok, 'L12-limit-sides',
+                                  'mpfit.__init__ pegged-%s step clip' % WORD[sd],
+                                  'the step of a parameter pegged at its %s bound is '
+                                  'clipped to point inwards' % WORD[sd], loc_(x),
+                                  fail_detail=ast.unparse(x)[:100])
+    check.floor('pegged-parameter tests and clips', npeg, 4)
+    # d. write-back onto a bound: index set and bound of one side
+    nput = [0]
+
+    def check_puts(node, last):
+        for x in ast.walk(node):
+            if isinstance(x, ast.Call) and ast.unparse(x.func).endswith('put') \
+                    and len(x.args) == 3 and isinstance(x.args[1], ast.Name):
+                src = x.args[2]
+                b_ = set(side[y.id] for y in ast.walk(src)
+                         if isinstance(y, ast.Name) and kind.get(y.id) == 'bound')
+                if len(b_) != 1:
+                    continue
+                idx = x.args[1].id
+                isd = side.get(idx, last.get(idx))
+                nput[0] += 1
+                check.require(isd == next(iter(b_)), 'L12-limit-sides',
+                              'mpfit.__init__ write-back `%s`' % norm_src(x)[:60],
+                              'values are set onto the bound of the side the '
+                              'index set was computed for', loc_(x),
+                              fail_detail='%s: indices computed for the %s '
+                              'side' % (ast.unparse(x)[:80], WORD.get(isd, 'unknown')))
+
+    def visit(seq, last):
+        for st in seq:
+            if isinstance(st, (ast.If, ast.While, ast.For, ast.With, ast.Try)):
+                for f_ in ('test', 'iter'):
+                    if hasattr(st, f_):
+                        check_puts(getattr(st, f_), last)
+                inner = set()
+                for f_ in ('body', 'orelse', 'finalbody'):
+                    sub = getattr(st, f_, None)
+                    if isinstance(sub, list):
+                        visit(sub, dict(last))
+                        for y in sub:
+                            for z in ast.walk(y):
+                                if isinstance(z, ast.Assign):
+                                    inner |= set(t.id for t in z.targets
+                                                 if isinstance(t, ast.Name))
+                for h in getattr(st, 'handlers', []):
+                    visit(h.body, dict(last))
+                for nm in inner:
+                    last[nm] = None
+                continue
+            check_puts(st, last)
+            if isinstance(st, ast.Assign) and len(st.targets) == 1 and \
+                    isinstance(st.targets[0], ast.Name):
+                ss = sides_in(st.value)
+                last[st.targets[0].id] = next(iter(ss)) if len(ss) == 1 else None
+    visit(fn.body, {})
+    nput = nput[0]
+    check.floor('write-backs onto a bound', nput, 2)
+
+
 def minimiser_internals(check, prog):
     """L10 / L11: two shape rules on the Levenberg-Marquardt code NmpfitStrategy runs
     (holopy/inference/third_party/nmpfit.py, a translation of MINPACK).
